@@ -597,7 +597,69 @@ def gen_rpcompare(repo):
     return "\n".join(L)
 
 
-FRAGMENTS = [("RPCompare", gen_rpcompare), ("Dispatch", gen_dispatch), ("Stubs", gen_stubs), ("Fields", gen_fields), ("PoolOps", gen_poolops)]
+
+# --------------------------------------------------------------------------- Bodies
+# The hand-written models of CSD/Model were written against these function bodies. The fragment holds
+# their text (comments stripped, white space collapsed); CSD/Model/SourceText.lean holds the text the
+# models were written against; the property theorems `model_written_against_current_source` state
+# that the two agree, so an edit of one of these functions breaks an obligation even when no generated
+# input distinguishes the behaviours.
+BODIES = [
+    # label, file, qualified name, nth definition
+    ("VByte_encode", "utils/VByte.cpp", "VByte::encode", 0),
+    ("VByte_decode", "utils/VByte.cpp", "VByte::decode", 0),
+    ("LogSequence_get_field", "utils/LogSequence.h", "get_field", 0),
+    ("LogSequence_set_field", "utils/LogSequence.h", "set_field", 0),
+    ("LogSequence_load", "utils/LogSequence.cpp", "LogSequence::LogSequence", 3),
+    ("LogSequence_save", "utils/LogSequence.cpp", "LogSequence::save", 0),
+    ("DAC_VLS_ctor", "utils/DAC_VLS.cpp", "DAC_VLS::DAC_VLS", 1),
+    ("DAC_VLS_access", "utils/DAC_VLS.cpp", "DAC_VLS::access", 0),
+    ("DAC_VLS_access_next", "utils/DAC_VLS.cpp", "DAC_VLS::access_next", 0),
+    ("bitwisehash", "Hash/HashUtils.h", "bitwisehash", 0),
+    ("step_value", "Hash/HashUtils.h", "step_value", 0),
+    ("nearest_prime", "Hash/HashUtils.h", "nearest_prime", 0),
+    ("HashDAC_insert", "Hash/HashDAC.cpp", "HashDAC::insert", 0),
+    ("HASHRPDAC_locate", "StringDictionaryHASHRPDAC.cpp", "StringDictionaryHASHRPDAC::locate", 0),
+    ("HASHRPDAC_extract", "StringDictionaryHASHRPDAC.cpp", "StringDictionaryHASHRPDAC::extract", 0),
+    ("Blocks_search_before", "StringDictionaryHASHRPDACBlocks.cpp", "binary_search_before_index", 0),
+    ("Blocks_locate", "StringDictionaryHASHRPDACBlocks.cpp", "StringDictionaryHASHRPDACBlocks::locate", 0),
+    ("Blocks_extract", "StringDictionaryHASHRPDACBlocks.cpp", "StringDictionaryHASHRPDACBlocks::extract", 0),
+    ("RPDAC_locate", "StringDictionaryRPDAC.cpp", "StringDictionaryRPDAC::locate", 0),
+    ("RPDAC_extract", "StringDictionaryRPDAC.cpp", "StringDictionaryRPDAC::extract", 0),
+    ("RePair_compareDAC", "RePair/RePair.cpp", "RePair::extractStringAndCompareDAC", 0),
+    ("RePair_compareRule", "RePair/RePair.cpp", "RePair::expandRuleAndCompareString", 0),
+    ("RePair_expandRule", "RePair/RePair.cpp", "RePair::expandRule", 0),
+    ("PFC_locate", "StringDictionaryPFC.cpp", "StringDictionaryPFC::locate", 0),
+    ("PFC_extract", "StringDictionaryPFC.cpp", "StringDictionaryPFC::extract", 0),
+    ("PFC_locateBucket", "StringDictionaryPFC.cpp", "StringDictionaryPFC::locateBucket", 0),
+    ("PFC_getHeader", "StringDictionaryPFC.cpp", "StringDictionaryPFC::getHeader", 0),
+    ("PFC_decodeNextString", "StringDictionaryPFC.cpp", "StringDictionaryPFC::decodeNextString", 0),
+    ("PFC_ctor", "StringDictionaryPFC.cpp", "StringDictionaryPFC::StringDictionaryPFC", 1),
+    ("LogSequence_vector_ctor", "utils/LogSequence.cpp", "LogSequence::LogSequence", 2),
+    ("PFC_save", "StringDictionaryPFC.cpp", "StringDictionaryPFC::save", 0),
+    ("PFC_load", "StringDictionaryPFC.cpp", "StringDictionaryPFC::load", 0),
+    ("RG_rank1", "libcds/src/bitsequence/BitSequenceRG.cpp", "BitSequenceRG::rank1", 0),
+]
+
+
+def body_text(repo, rel, qual, nth):
+    src = strip_comments(read(repo, rel))
+    body, _ = func_body(src, qual, nth=nth)
+    return re.sub(r"\s+", " ", body).strip()
+
+
+def bodies_lean(repo, namespace, header):
+    L = [header, "namespace " + namespace, ""]
+    for label, rel, qual, nth in BODIES:
+        L.append("def body_%s : String := %s" % (label, lean_str(body_text(repo, rel, qual, nth))))
+    L += ["", "end " + namespace, ""]
+    return "\n".join(L)
+
+
+def gen_bodies(repo):
+    return bodies_lean(repo, "CSD.Generated", "-- generated by tools/extract_frag.py: bodies of the functions the hand-written models mirror")
+
+FRAGMENTS = [("Bodies", gen_bodies), ("RPCompare", gen_rpcompare), ("Dispatch", gen_dispatch), ("Stubs", gen_stubs), ("Fields", gen_fields), ("PoolOps", gen_poolops)]
 
 if __name__ == "__main__":
     import sys
